@@ -111,6 +111,19 @@ def object_events(entry, enc, tid0, rng, quick, run):
                         "raised": o is None, "out": fec.limbs(o if o is not None and o >= 0 else 0, k) if o is not None else [0],
                         "errs": fec.limbs(errs[i], n) if (errs is not None and errs[i] is not None and errs[i] >= 0 and o is not None) else [-1]})
             run.case((entry.name, dname, m, e), nontrivial=e != 0)
+        # the same received words as float64 / int64 tensors (first 64 cases): a decoder may reject the dtype, but an answer must not differ
+        sub = min(len(cases), 64)
+        for dt in (torch.float64, torch.int64):
+            try:
+                o2, _ = _decode_all(dec, R[:sub].to(dt), k, want_errors=False)
+            except Exception:
+                continue
+            for i in range(sub):
+                run.case((entry.name, dname, cases[i][0], cases[i][1], str(dt)), nontrivial=cases[i][1] != 0)
+                if o2[i] is not None and o2[i] != outs[i]:
+                    tid += 1
+                    evs.append({"ev": "Decode", "tid": tid, "decoder": dname, "m": fec.limbs(cases[i][0], k), "e": fec.limbs(cases[i][1], n), "raised": False,
+                                "out": fec.limbs(o2[i] if o2[i] >= 0 else 0, k), "errs": [-1], "dtype": str(dt).replace("torch.", "")})
         if complete and ml_ok:
             words = list(range(1 << n)) if (1 << n) <= (budget) else [rng.randrange(1 << n) for _ in range(min(budget, 600))]
             R = torch.stack([fec.from_int(w, n) for w in words])
